@@ -76,12 +76,31 @@ type RespSpec struct {
 	Status int        `json:"status,omitempty"` // response-level status (0 = propstat form)
 	Props  []PropSpec `json:"props,omitempty"`
 	Coll   bool       `json:"coll,omitempty"`
+	// Href: "" = one member href; "none" = no href element; "two" = two hrefs (RFC 4918 allows that with a
+	// response-level status only); "self" = the href of the collection the call was addressed to
+	Href string `json:"href,omitempty"`
 }
 
 type Doc struct {
 	Resps []RespSpec `json:"resps"`
 	Cut   int        `json:"cut,omitempty"` // >0: keep only this many bytes
 	Token string     `json:"token,omitempty"`
+	Self  string     `json:"self,omitempty"` // path the call addresses (for Href == "self")
+}
+
+func (d Doc) hrefs(i int) []string {
+	member := fmt.Sprintf("/coll/member-%d", i)
+	switch d.Resps[i].Href {
+	case "none":
+		return nil
+	case "two":
+		return []string{member, fmt.Sprintf("/coll/extra-%d", i)}
+	case "self":
+		if d.Self != "" {
+			return []string{d.Self}
+		}
+	}
+	return []string{member}
 }
 
 type Case struct {
@@ -89,6 +108,7 @@ type Case struct {
 	Script script   `json:"script"`
 	Doc    *Doc     `json:"doc,omitempty"`     // when the body was built from a document spec
 	ErrDoc []string `json:"err_doc,omitempty"` // DAV:error condition element names "ns local"
+	ErrPad int      `json:"err_pad,omitempty"` // bytes of comment + white space in front of the condition elements
 }
 
 const icalText = "BEGIN:VCALENDAR\r\nVERSION:2.0\r\nPRODID:-//verif//EN\r\nBEGIN:VEVENT\r\nUID:u1\r\nDTSTAMP:20200101T000000Z\r\nDTSTART:20200101T000000Z\r\nEND:VEVENT\r\nEND:VCALENDAR\r\n"
@@ -135,7 +155,7 @@ var propBuilders = map[string]func(coll bool) *vx.Node{
 func (d Doc) render() string {
 	var ms vdav.MultiStatus
 	for i, r := range d.Resps {
-		resp := vdav.Response{Hrefs: []string{fmt.Sprintf("/coll/member-%d", i)}}
+		resp := vdav.Response{Hrefs: d.hrefs(i)}
 		if r.Status != 0 {
 			st := r.Status
 			resp.Status = &st
@@ -193,6 +213,7 @@ type methodInfo struct {
 	required []string // required properties (per consumed response)
 	optional []string
 	collOnly bool // consumes only responses typed as collection (others skipped after the type check)
+	self     string // the path the call addresses
 	call     func(ctx context.Context, hc webdav.HTTPClient) (any, error)
 }
 
@@ -222,15 +243,15 @@ func sampleCard() vcard.Card {
 var allReq = caldav.CalendarCompRequest{Name: "VCALENDAR", AllProps: true, AllComps: true}
 
 var methods = []methodInfo{
-	{name: "webdav.FindCurrentUserPrincipal", multi: true, flat: true, required: []string{"current-user-principal"},
+	{name: "webdav.FindCurrentUserPrincipal", self: "/base/", multi: true, flat: true, required: []string{"current-user-principal"},
 		call: func(ctx context.Context, hc webdav.HTTPClient) (any, error) {
 			return wd(hc).FindCurrentUserPrincipal(ctx)
 		}},
-	{name: "webdav.Stat", multi: true, flat: true, required: []string{"resourcetype", "getcontentlength"}, optional: []string{"getcontenttype", "getetag", "getlastmodified"},
+	{name: "webdav.Stat", self: "/coll/member-0", multi: true, flat: true, required: []string{"resourcetype", "getcontentlength"}, optional: []string{"getcontenttype", "getetag", "getlastmodified"},
 		call: func(ctx context.Context, hc webdav.HTTPClient) (any, error) {
 			return wd(hc).Stat(ctx, "/coll/member-0")
 		}},
-	{name: "webdav.ReadDir", multi: true, required: []string{"resourcetype", "getcontentlength"}, optional: []string{"getcontenttype", "getetag", "getlastmodified"},
+	{name: "webdav.ReadDir", self: "/coll/", multi: true, required: []string{"resourcetype", "getcontentlength"}, optional: []string{"getcontenttype", "getetag", "getlastmodified"},
 		call: func(ctx context.Context, hc webdav.HTTPClient) (any, error) {
 			return wd(hc).ReadDir(ctx, "/coll/", true)
 		}},
@@ -258,17 +279,17 @@ var methods = []methodInfo{
 	{name: "webdav.Move", call: func(ctx context.Context, hc webdav.HTTPClient) (any, error) {
 		return nil, wd(hc).Move(ctx, "/a", "/b", nil)
 	}},
-	{name: "caldav.FindCalendarHomeSet", multi: true, flat: true, required: []string{"calendar-home-set"},
+	{name: "caldav.FindCalendarHomeSet", self: "/p/", multi: true, flat: true, required: []string{"calendar-home-set"},
 		call: func(ctx context.Context, hc webdav.HTTPClient) (any, error) {
 			return cal(hc).FindCalendarHomeSet(ctx, "/p/")
 		}},
-	{name: "caldav.FindCalendars", multi: true, required: []string{"resourcetype"}, optional: []string{"displayname", "calendar-description", "max-resource-size-cal", "supported-calendar-component-set"}, collOnly: true,
+	{name: "caldav.FindCalendars", self: "/h/", multi: true, required: []string{"resourcetype"}, optional: []string{"displayname", "calendar-description", "max-resource-size-cal", "supported-calendar-component-set"}, collOnly: true,
 		call: func(ctx context.Context, hc webdav.HTTPClient) (any, error) { return cal(hc).FindCalendars(ctx, "/h/") }},
-	{name: "caldav.QueryCalendar", multi: true, required: []string{"calendar-data"}, optional: []string{"getlastmodified", "getetag", "getcontentlength"},
+	{name: "caldav.QueryCalendar", self: "/c/", multi: true, required: []string{"calendar-data"}, optional: []string{"getlastmodified", "getetag", "getcontentlength"},
 		call: func(ctx context.Context, hc webdav.HTTPClient) (any, error) {
 			return cal(hc).QueryCalendar(ctx, "/c/", &caldav.CalendarQuery{CompRequest: allReq, CompFilter: caldav.CompFilter{Name: "VCALENDAR"}})
 		}},
-	{name: "caldav.MultiGetCalendar", multi: true, required: []string{"calendar-data"}, optional: []string{"getlastmodified", "getetag", "getcontentlength"},
+	{name: "caldav.MultiGetCalendar", self: "/c/", multi: true, required: []string{"calendar-data"}, optional: []string{"getlastmodified", "getetag", "getcontentlength"},
 		call: func(ctx context.Context, hc webdav.HTTPClient) (any, error) {
 			return cal(hc).MultiGetCalendar(ctx, "/c/", &caldav.CalendarMultiGet{Paths: []string{"/c/a.ics"}, CompRequest: allReq})
 		}},
@@ -279,19 +300,19 @@ var methods = []methodInfo{
 		return cal(hc).PutCalendarObject(ctx, "/c/a.ics", sampleCal())
 	}},
 	{name: "carddav.HasSupport", call: func(ctx context.Context, hc webdav.HTTPClient) (any, error) { return nil, card(hc).HasSupport(ctx) }},
-	{name: "carddav.FindAddressBookHomeSet", multi: true, flat: true, required: []string{"addressbook-home-set"},
+	{name: "carddav.FindAddressBookHomeSet", self: "/p/", multi: true, flat: true, required: []string{"addressbook-home-set"},
 		call: func(ctx context.Context, hc webdav.HTTPClient) (any, error) {
 			return card(hc).FindAddressBookHomeSet(ctx, "/p/")
 		}},
-	{name: "carddav.FindAddressBooks", multi: true, required: []string{"resourcetype"}, optional: []string{"displayname", "addressbook-description", "max-resource-size-card", "supported-address-data"}, collOnly: true,
+	{name: "carddav.FindAddressBooks", self: "/h/", multi: true, required: []string{"resourcetype"}, optional: []string{"displayname", "addressbook-description", "max-resource-size-card", "supported-address-data"}, collOnly: true,
 		call: func(ctx context.Context, hc webdav.HTTPClient) (any, error) {
 			return card(hc).FindAddressBooks(ctx, "/h/")
 		}},
-	{name: "carddav.QueryAddressBook", multi: true, required: []string{"address-data"}, optional: []string{"getlastmodified", "getetag", "getcontentlength"},
+	{name: "carddav.QueryAddressBook", self: "/b/", multi: true, required: []string{"address-data"}, optional: []string{"getlastmodified", "getetag", "getcontentlength"},
 		call: func(ctx context.Context, hc webdav.HTTPClient) (any, error) {
 			return card(hc).QueryAddressBook(ctx, "/b/", &carddav.AddressBookQuery{DataRequest: carddav.AddressDataRequest{AllProp: true}})
 		}},
-	{name: "carddav.MultiGetAddressBook", multi: true, required: []string{"address-data"}, optional: []string{"getlastmodified", "getetag", "getcontentlength"},
+	{name: "carddav.MultiGetAddressBook", self: "/b/", multi: true, required: []string{"address-data"}, optional: []string{"getlastmodified", "getetag", "getcontentlength"},
 		call: func(ctx context.Context, hc webdav.HTTPClient) (any, error) {
 			return card(hc).MultiGetAddressBook(ctx, "/b/", &carddav.AddressBookMultiGet{Paths: []string{"/b/a.vcf"}, DataRequest: carddav.AddressDataRequest{AllProp: true}})
 		}},
@@ -301,7 +322,7 @@ var methods = []methodInfo{
 	{name: "carddav.PutAddressObject", call: func(ctx context.Context, hc webdav.HTTPClient) (any, error) {
 		return card(hc).PutAddressObject(ctx, "/b/a.vcf", sampleCard())
 	}},
-	{name: "carddav.SyncCollection", multi: true, optional: []string{"getlastmodified", "getetag"},
+	{name: "carddav.SyncCollection", self: "/b/", multi: true, optional: []string{"getlastmodified", "getetag"},
 		call: func(ctx context.Context, hc webdav.HTTPClient) (any, error) {
 			return card(hc).SyncCollection(ctx, "/b/", &carddav.SyncQuery{SyncToken: "t0"})
 		}},
@@ -342,6 +363,19 @@ func docVerdict(m *methodInfo, d Doc, rendered string) (verdict, string) {
 	}
 	care := false
 	for _, r := range d.Resps {
+		switch {
+		case r.Href == "none" && r.Status != 0 && !success(r.Status):
+			return mustFail, fmt.Sprintf("response without href and with status %d", r.Status)
+		case r.Href == "none":
+			care = true // not a conformant document (href is required); an error is fine, so is skipping it
+			continue
+		case r.Href == "two" && r.Status == 0:
+			care = true // several hrefs are only allowed with a response-level status
+			continue
+		case r.Href == "two" && (success(r.Status) || (m.name == "carddav.SyncCollection" && r.Status == 404)):
+			care = true // RFC 4918 allows it; whether a client makes sense of it is not part of the statement
+			continue
+		}
 		if r.Status != 0 {
 			if success(r.Status) {
 				// a response in status form carries no properties
@@ -421,6 +455,9 @@ func evaluate(c Case) (o vev.Outcome, err error) {
 	}
 	if len(c.ErrDoc) > 0 {
 		e := vx.El(vdav.NSDAV, "error")
+		if c.ErrPad > 0 {
+			e.Add(&vx.Node{Kind: vx.Comment, Text: strings.Repeat(" padding ", c.ErrPad/9+1)[:c.ErrPad]})
+		}
 		for _, n := range c.ErrDoc {
 			f := strings.SplitN(n, " ", 2)
 			e.Add(vx.El(f[0], f[1]))
@@ -561,8 +598,27 @@ func noBogusData(m *methodInfo, d Doc, v any, rendered string) vev.Outcome {
 	if m.name == "carddav.SyncCollection" {
 		sr, _ := v.(*carddav.SyncResponse)
 		if sr != nil {
+			named := map[string]bool{}
+			for i := range d.Resps {
+				for _, h := range d.hrefs(i) {
+					named[h] = true
+				}
+			}
+			for _, x := range sr.Deleted {
+				if !named[x] {
+					return dev(m.name+"|phantom-deletion", "Deleted lists %q, which no response of the document names: %q", x, rendered)
+				}
+			}
+			for _, x := range sr.Updated {
+				if !named[x.Path] {
+					return dev(m.name+"|phantom-update", "Updated lists %q, which no response of the document names: %q", x.Path, rendered)
+				}
+			}
 			for i, r := range d.Resps {
-				p := fmt.Sprintf("/coll/member-%d", i)
+				if r.Href == "none" || r.Href == "two" {
+					continue
+				}
+				p := d.hrefs(i)[0]
 				inDel, inUpd := false, false
 				for _, x := range sr.Deleted {
 					if x == p {
@@ -576,6 +632,14 @@ func noBogusData(m *methodInfo, d Doc, v any, rendered string) vev.Outcome {
 				}
 				if r.Status == 404 && (!inDel || inUpd) {
 					return dev(m.name+"|deleted-member", "member %q was reported 404 but Deleted=%v Updated=%v", p, inDel, inUpd)
+				}
+				if r.Href == "self" {
+					// the collection itself is not a member: as long as it is not reported deleted, whether it
+					// is listed as updated is not asserted
+					if r.Status == 0 && inDel {
+						return dev(m.name+"|self-deleted", "the collection itself was reported with properties but is listed as deleted")
+					}
+					continue
 				}
 				if r.Status == 0 && (inDel || !inUpd) {
 					return dev(m.name+"|updated-member", "member %q was reported with properties but Deleted=%v Updated=%v", p, inDel, inUpd)
@@ -601,7 +665,10 @@ func genDoc(rt *rapid.T, m *methodInfo) Doc {
 	}
 	for i := 0; i < n; i++ {
 		r := RespSpec{Coll: rapid.Bool().Draw(rt, "coll")}
-		if rapid.IntRange(0, 5).Draw(rt, "respstatus") == 0 {
+		if rapid.IntRange(0, 6).Draw(rt, "hrefmode?") == 0 {
+			r.Href = rapid.SampledFrom([]string{"none", "two", "self", "self"}).Draw(rt, "hrefmode")
+		}
+		if rapid.IntRange(0, 5).Draw(rt, "respstatus") == 0 || (r.Href != "" && rapid.Bool().Draw(rt, "hrefstatus")) {
 			r.Status = rapid.SampledFrom([]int{200, 204, 301, 403, 404, 404, 423, 500, 507}).Draw(rt, "rstatus")
 		} else {
 			for _, name := range append(append([]string{}, m.required...), m.optional...) {
@@ -621,6 +688,17 @@ func genDoc(rt *rapid.T, m *methodInfo) Doc {
 	}
 	if m.name == "carddav.SyncCollection" {
 		d.Token = "sync-token-1"
+	}
+	d.Self = m.self
+	// at most one response may stand for the collection itself
+	seenSelf := false
+	for i := range d.Resps {
+		if d.Resps[i].Href == "self" {
+			if seenSelf {
+				d.Resps[i].Href = ""
+			}
+			seenSelf = true
+		}
 	}
 	return d
 }
@@ -725,6 +803,7 @@ func TestStatusMatrix(t *testing.T) {
 				if k == 2 && code%3 == 0 {
 					c.Script.Body = ""
 					c.ErrDoc = []string{vdav.NSCal + " no-uid-conflict", vdav.NSDAV + " need-privileges"}
+					c.ErrPad = []int{0, 2000, 100000}[(code/3)%3]
 				}
 				run(t, nil, c, fmt.Sprintf("matrix/%dxx", code/100))
 			}
@@ -782,6 +861,7 @@ func TestArbitraryResponses(t *testing.T) {
 			c.Script.Body = ""
 			c.Script.CT = rapid.SampledFrom([]string{"application/xml", "text/xml; charset=utf-8"}).Draw(rt, "errct")
 			c.ErrDoc = rapid.SliceOfN(rapid.SampledFrom([]string{vdav.NSCal + " no-uid-conflict", vdav.NSCard + " valid-address-data", vdav.NSDAV + " lock-token-submitted", "urn:x custom"}), 1, 3).Draw(rt, "conds")
+			c.ErrPad = rapid.SampledFrom([]int{0, 0, 0, 900, 1100, 5000, 70000}).Draw(rt, "errpad")
 		}
 		run(t, rt, c, fmt.Sprintf("arbitrary/%dxx", c.Script.Status/100))
 	})
